@@ -355,6 +355,69 @@ def rule_MP6(rep, prog, q):
                 "_dispatch_root_queue_poke must probe the tail before deciding not to request a thread", sample={"probes": len(probe), "slow": len(slow)})
 
 
+def count_calls_on_paths(fn, match, bound=20000):
+    """set of per-path counts of instructions satisfying `match` over all acyclic entry->return paths"""
+    counts = set()
+    work = [(fn.blocks[0], 0, (0,))]
+    n = 0
+    while work:
+        b, c, path = work.pop()
+        n += 1
+        if n > bound:
+            raise AnalysisBroken("path bound exceeded counting calls in %s" % fn.name)
+        c += sum(1 for i in b.insts if match(i))
+        t = b.term
+        if t.op == "ret":
+            counts.add(c)
+            continue
+        if t.op == "unreachable":
+            continue
+        for s_ in b.succs:
+            if s_.id in path:
+                continue
+            work.append((s_, c, path + (s_.id,)))
+    return counts
+
+
+def rule_CC8(rep, prog, q):
+    rid = rep.rule("C01-CC8", "no double invocation: exactly one client callout on every path of the inline invokers; an item is dispatched to exactly one of "
+                   "dx_invoke / inline invoke; the sync slow paths run the work locally only when the remote drainer did not (dsc_func still set)", floor=4)
+    is_callout = lambda i: i.op == "call" and i.callee in ("_dispatch_client_callout", "_dispatch_continuation_with_group_invoke", "_dispatch_client_callout2")
+    for name in ("_dispatch_continuation_invoke_inline", "_dispatch_sync_function_invoke_inline"):
+        fn = prog.fn(name)
+        rep.saw(fn)
+        cs = count_calls_on_paths(fn, is_callout)
+        rep.require(rid, cs == {1}, fn.file + ":" + str(fn.d.get("line")), name, "callout-count:%s" % name,
+                    "%s runs the client function %s time(s) depending on the path (must be exactly once)" % (name, sorted(cs)), sample={"fn": name, "counts": sorted(cs)})
+    fn = prog.fn("_dispatch_continuation_pop_inline")
+    rep.saw(fn)
+    inv = lambda i: i.op == "call" and (i.callee in ("_dispatch_continuation_invoke_inline",) or ("icallee" in i.d and "do_invoke" in callee_slot(prog, i)))
+    cs = count_calls_on_paths(fn, inv)
+    rep.require(rid, cs == {1}, fn.file, fn.name, "pop-dispatch-count", "_dispatch_continuation_pop_inline invokes an item %s time(s) depending on the path (must be "
+                "exactly one of dx_invoke / inline invoke)" % sorted(cs), sample={"counts": sorted(cs)})
+    for name, local in (("_dispatch_sync_f_slow", "_dispatch_sync_invoke_and_complete_recurse"), ("_dispatch_async_and_wait_f_slow", "_dispatch_async_and_wait_invoke_and_complete_recurse")):
+        fn = prog.fn(name)
+        rep.saw(fn)
+        wait = calls_named(fn, "__DISPATCH_WAIT_FOR_QUEUE__")
+        loc = calls_named(fn, local)
+        ok = bool(wait) and bool(loc)
+        for c in loc:
+            if not any(fn.inst_reaches(w, c) for w in wait):
+                continue    # the inline (no wait) path
+            cx = paths.dom_ctx(fn, c)
+            f_set = False
+            for iid, tv in cx.truth.items():
+                ii = fn.insts[iid]
+                if ii.op == "icmp" and ii.d["pred"] in ("eq", "ne") and any(o[0] == "n" for o in ii.ops):
+                    l = fn.inst(ii.ops[0]) or fn.inst(ii.ops[1])
+                    if l is not None and l.op == "load" and "dsc_func" in prog.fields(l) and any(fn.inst_reaches(w, l) for w in wait) and tv == (ii.d["pred"] == "ne"):
+                        f_set = True
+            ok = ok and f_set
+        rep.require(rid, ok, fn.file, name, "local-run-after-remote-run:%s" % name,
+                    "%s runs the work item locally after the wait without having found dsc_func still set: when the drainer already ran it (dsc_func == NULL) "
+                    "the item would run twice" % name, sample={"fn": name, "local_calls": len(loc)})
+
+
 ASYNC_ROOTS = ["dispatch_async", "dispatch_async_f", "dispatch_barrier_async", "dispatch_barrier_async_f", "dispatch_group_async", "dispatch_group_async_f"]
 WORK_WAITS = ["_dispatch_thread_event_wait_slow", "_dispatch_sema4_wait", "_dispatch_sema4_timedwait", "_dispatch_wait_on_address", "__DISPATCH_WAIT_FOR_QUEUE__",
               "dispatch_semaphore_wait", "_dispatch_semaphore_wait_slow", "dispatch_group_wait", "_dispatch_group_wait_slow", "dispatch_sync", "dispatch_sync_f",
@@ -412,6 +475,8 @@ def run(rep, tier="quick", srcdir=None, only=None):
         rule_TR4(rep, prog, ex, q, ts)
     if want("C01-MP6"):
         rule_MP6(rep, prog, q)
+    if want("C01-CC8"):
+        rule_CC8(rep, prog, q)
     if want("C01-WM9"):
         rule_WM9(rep, ir.Program(build.facts_for("all", srcdir=srcdir)))
     if want("C03-MP2"):
